@@ -380,7 +380,7 @@ def _prep_index(self, indx):
                         % (inloc + k, self._shape_[inloc + k], item_length))
 
                 # Update index and mask
-                index = Qube.or_(item._values_, item._mask_)  # True or masked
+                index = item._values_ | item._mask_     # True or masked
                 pre_index += [index]
 
                 if np.shape(item._mask_):               # mask is an array
